@@ -601,6 +601,15 @@ impl<'ast> LoweringContext<'ast> {
             in_path,
         )?;
 
+        if takes_write && !output.success_type().is_write() {
+            // The write parameter is only recorded through `SuccessType::Write`; with any other
+            // success type backends would declare the function without it.
+            self.errors.push(LoweringError::Other(
+                "Methods taking a DiplomatWrite must return (), Option<()> or Result<(), E>".into(),
+            ));
+            return Err(());
+        }
+
         let abi_name = self.lower_ident(&method.abi_name, "method abi name")?;
         let hir_method = Method {
             docs: method.docs.clone(),
